@@ -420,7 +420,7 @@ func snapAssoc(a *Association) string {
 	}
 	// ... nor does it feed the round-trip estimator
 	if a.rtoMgr != nil {
-		fmt.Fprintf(&b, " rto=%.0f", a.rtoMgr.getRTO())
+		fmt.Fprintf(&b, " rto=%.0f srtt=%.0f", a.rtoMgr.getRTO(), a.rtoMgr.srtt)
 	}
 	for _, sid := range vsched.SortedKeys(a.streams) {
 		s := a.streams[sid]
